@@ -8,6 +8,8 @@ V = {("C", 0): 4, ("C", 1): 3, ("C", -1): 3, ("N", 0): 3, ("N", 1): 4, ("N", -1)
      ("S", 0): 2, ("S", 1): 3, ("S", -1): 1, ("P", 0): 3, ("P", 1): 4, ("P", -1): 2, ("B", 0): 3, ("B", -1): 4, ("B", 1): 2,
      ("Se", 0): 2, ("Se", 1): 3, ("Te", 0): 2, ("Te", 1): 3, ("As", 0): 3, ("As", 1): 4, ("Si", 0): 4, ("Al", 0): 3}
 STANDARD_ELEMENTS = {"C", "N", "O", "S", "P"}
+# higher normal valences of the organic subset (OpenSMILES): an unbracketed aromatic atom whose sigma bonds already add up to one of them
+HIGHER = {"S": (4, 6), "Se": (4, 6), "Te": (4, 6), "P": (5,), "As": (5,), "N": (5,)}
 
 
 def needs_pi(el, charge, h, sigma):
@@ -20,6 +22,8 @@ def needs_pi(el, charge, h, sigma):
     if h is None:
         if sigma == v:
             return False
+        if charge == 0 and sigma in HIGHER.get(el, ()):
+            return False          # saturated at a higher normal valence by substituents (s(=O), p(=O)(C), ...): no pi bond in the ring
         if sigma < v:
             # one implicit H may be needed as well (c with two sigma bonds); a pi bond is needed either way,
             # except for the chalcogens/pnictogens where sigma == v - 1 cannot happen in a ring
